@@ -404,6 +404,20 @@ def run(ck):
     ck.floor("C07.G14 functions scanned for attribute reads under isinstance guards", n_fn, 150)
     if not n_hit:
         ck.ok("C07.G14", "run path", "src/", f"{n_fn} functions: every attribute read under an isinstance guard exists on the guarded class(es)")
+    ck.clause("C07.G23", "output directories are created with exist_ok=True: the same command run twice (or two modes into one place) "
+                         "must not abort on the directory the first run left - argparse has already truncated the -o file by then")
+    n_mk = 0
+    for f0 in p.nontest_functions():
+        if f0.is_lambda or not (f0.module.name.startswith("src.") or f0.module.name.startswith("sv.")):
+            continue
+        for node in ast.walk(f0.node):
+            if isinstance(node, ast.Call) and isinstance(node.func, ast.Attribute) and node.func.attr in ("makedirs", "mkdir"):
+                n_mk += 1
+                ok_kw = any(k.arg == "exist_ok" and isinstance(k.value, ast.Constant) and k.value.value is True for k in node.keywords)
+                is_os_mkdir = ast.unparse(node.func) == "os.mkdir"
+                ck.judge(ok_kw and not is_os_mkdir, "C07.G23", short(f0) + ":" + node.func.attr, where(f0, node),
+                         "the directory may already exist", found=ast.unparse(node)[:120], required="exist_ok=True")
+    ck.floor("C07.G23 directory creations", n_mk, 1)
     ck.clause("C07.G21", "a row finds its molecule: the original query of a first-pass row is looked up by id in the whole query list (as "
                          "C10.2) - a lookup that can come back empty (rows paired with queries by position, a binary search over an "
                          "unsorted list) ends in an AttributeError on None and the run writes nothing")
